@@ -6,6 +6,7 @@
 -/
 import UtreexoVerif.Driver.State
 import UtreexoVerif.Model.Verifiers
+import UtreexoVerif.Model.PollardAbs
 
 namespace UtreexoVerif.Driver
 open UtreexoVerif Model Spec
@@ -93,6 +94,15 @@ def handleObs (line : String) (toks : List String) : M Unit := do
         | some h => hx h
         | none => "z"
       count "hash" line (exp != "z")
+      -- the model of Pollard.getNode/getHash (DetectOffset + niece walk, Model/PollardAbs) on
+      -- the same input; `Props.C10.pollardGetHashNiece_spec` proves it equal to the
+      -- specification look-up, the driver ties it to the Go code (small forests: the model
+      -- recomputes the collapsed trees per query)
+      if impl == "pollard" && I.n ≤ 40 && pp < 2 ^ 64 then
+        let s ← get
+        let m := PollardAbs.pollardGetHashNiece s.forest (BitVec.ofNat 64 pp)
+        count "pollardhash" line (m != H256.zero)
+        expectEq "pollardhash" (hx m) res
       if exp == res then pure ()
       else
         -- Known finding C10.maphash.outofrange: MapPollard.GetHash translates a position
